@@ -81,7 +81,7 @@ type World struct {
 	TeardownWait  time.Duration // how long a step waits for the end of a teardown (longer when the scheduler stalls it)
 	connBefore    string
 	dpTimeouts    int
-	AutoHB        bool   // every scripted peer answers the agent's Heartbeat Requests from its creation on
+	AutoHB        bool          // every scripted peer answers the agent's Heartbeat Requests from its creation on
 	ReportCopies  int           // BESS: a report is written this many times back to back on the notify socket (0, 1: once)
 	ConnTruth     string        // "down": the harness itself stopped the datapath server a while ago; Assoc records that instead of the agent's own view
 	DdnMs         int           // notification interval set through the hook (0 = the code's 20 s)
